@@ -27,14 +27,14 @@ def internalLabels (st : State) : List Label :=
   (List.range n).flatMap (fun i =>
     match st.senders[i]? with
     | none => []
-    | some sd => Label.handoff i :: (tableOf sd.pc).map (Label.sender i)) ++
-  (rtableOf st.rpc).map Label.recv
+    | some sd => Label.handoff i :: Label.park i :: (tableOf sd.pc).map (Label.sender i)) ++
+  Label.parkRecv :: (rtableOf st.rpc).map Label.recv
 
 def successors (st : State) : List (State × List String) :=
   (internalLabels st).filterMap fun l =>
     match step st l with
     | none => none
-    | some st' => some (st', completions st l)
+    | some st' => some (st', (completions st l).map showCompletion)
 
 def insertSorted (x : String) : List String → List String
   | [] => [x]
